@@ -46,7 +46,11 @@ pub enum Cause {
     /// declared length is not a multiple of 4 / attribute header or value cut by the end of the body.
     /// `available` is the buffer length when the header of the cut attribute is complete (the
     /// number of bytes that are there is then unambiguous), None when even the header is cut
-    AttrTruncated { available: Option<usize> },
+    AttrTruncated {
+        available: Option<usize>,
+        /// bytes needed to hold the cut attribute, without and with its padding (header complete only)
+        needed: Option<(usize, usize)>,
+    },
     AfterIntegrity(u16),
     AfterFingerprint(u16),
     BadFingerprintLen,
@@ -209,8 +213,15 @@ pub fn parse(buf: &[u8]) -> RefParse {
     let mut ordered = attrs.clone();
     if !tiled {
         let off = attrs.last().map(|a| a.padded_end()).unwrap_or(20);
+        let complete_header = off + 4 <= end && end == buf.len();
         causes.push(Cause::AttrTruncated {
-            available: if off + 4 <= end && end == buf.len() { Some(buf.len()) } else { None },
+            available: if complete_header { Some(buf.len()) } else { None },
+            needed: if complete_header {
+                let len = u16::from_be_bytes([buf[off + 2], buf[off + 3]]) as usize;
+                Some((off + 4 + len, off + 4 + pad4(len)))
+            } else {
+                None
+            },
         });
         if off + 4 <= end {
             let ty = u16::from_be_bytes([buf[off], buf[off + 1]]);
